@@ -101,6 +101,9 @@ class GOMoveIterationBoundariesInsideKernelTrans(Transformation):
         :type options: Optional[Dict[str, Any]]
 
         :raises TransformationError: if the node is not a GOKern.
+        :raises TransformationError: if the loops enclosing the kernel \
+            contain any other kernel (their bounds are widened to the \
+            whole field but only this kernel is given a mask).
 
         '''
         if not isinstance(node, GOKern):
@@ -108,6 +111,19 @@ class GOMoveIterationBoundariesInsideKernelTrans(Transformation):
                 f"Error in {self.name} transformation. This transformation "
                 f"can only be applied to 'GOKern' nodes, but found "
                 f"'{type(node).__name__}'.")
+
+        # The bounds of both enclosing loops are replaced by the extent of
+        # the whole field and only this kernel gets a mask. Any other kernel
+        # sharing one of those loops (e.g. after loop fusion) would be
+        # executed for points outside of its iteration space.
+        loop = node.ancestor(Loop)
+        while loop:
+            if len(loop.walk(GOKern)) > 1:
+                raise TransformationError(
+                    f"Error in {self.name} transformation. The kernel "
+                    f"'{node.name}' shares an enclosing loop with other "
+                    f"kernels, this is not supported.")
+            loop = loop.ancestor(Loop)
 
     def apply(self, node, options=None):
         '''Apply this transformation to the supplied node.
